@@ -1578,14 +1578,12 @@ def r_floatbuf(E):
                 if dt is not None:
                     if norm(dt) in ("int", "np.int32", "np.int64", "np.int_", "'int'", "'int64'", "bool", "np.bool_"):
                         why = f"dtype={norm(dt)}"
-                elif f in ("zeros_like", "empty_like", "ones_like"):
-                    why = f"np.{f}({norm(c.args[0])[:30] if c.args else ''}) takes the type of its model array (an index of hours / days is made of integers)"
-                elif f in ("full", "full_like"):
+                elif f in ("zeros_like", "empty_like", "ones_like", "full_like"):
+                    why = f"np.{f}({norm(c.args[0])[:30] if c.args else ''}, …) takes the type of its model array whatever the fill value (an index of hours / days is made of integers)"
+                elif f == "full":
                     fill = kws.get("fill_value", c.args[1] if len(c.args) > 1 else None)
                     if isinstance(fill, ast.Constant) and isinstance(fill.value, int) and not isinstance(fill.value, bool):
                         why = f"np.{f}(…, {fill.value}) is an integer array"
-                    elif f == "full_like" and not (isinstance(fill, ast.Constant) and isinstance(fill.value, float)):
-                        why = "np.full_like takes the type of its model array"
                 if why:
                     res.findings.append(Finding(
                         "R-FLOATBUF", f"{fn.name} :: {name} allocated as integers",
